@@ -152,13 +152,12 @@ structure St where
   lastStateChange : Int      -- default Application::GetStartTime()
   lastExec : Option Int      -- execution_start of last_check_result
   dts : List Dt              -- in creation order (= order of ConfigType::GetObjectsByType)
-  startNext : Int            -- m_Next of l_DowntimesStartTimer (interval 5, downtime.cpp:97-100)
   paused : Bool              -- the checkable is paused (no authority): checkable.cpp:255,267
   deriving Repr, DecidableEq
 
 /-- A never-checked checkable at the beginning of a case. -/
 def initSt (k : Kind) : St :=
-  { kind := k, state := 3, lastStateChange := 990, lastExec := none, dts := [], startNext := 1000,
+  { kind := k, state := 3, lastStateChange := 990, lastExec := none, dts := [],
     paused := false }
 
 structure AddP where
@@ -174,13 +173,13 @@ structure AddP where
 inductive Op
   | add (p : AddP) (now : Int)
   | result (state : Nat) (te : Int) (now : Int)
-  | pump (now : Int)
+  | pump (now : Int) (fire : Bool)   -- time passes to `now`; `fire`: the start timer is among the due timers
   | remove (id : Nat) (byUser : Bool) (now : Int)
   | setPaused (b : Bool) (now : Int)      -- the checkable loses / regains authority
   deriving Repr, DecidableEq
 
 def Op.now : Op → Int
-  | .add _ n => n | .result _ _ n => n | .pump n => n | .remove _ _ n => n | .setPaused _ n => n
+  | .add _ n => n | .result _ _ n => n | .pump n _ => n | .remove _ _ n => n | .setPaused _ n => n
 
 /-- The object `AddDowntime` creates: `triggered_by` is set only when the named downtime exists
     (downtime.cpp:266-268). -/
@@ -248,12 +247,14 @@ def fireCleanup (now : Int) (d : Dt) : Dt :=
 def startTimer (now : Int) (dts : List Dt) : List Dt :=
   (liveIds dts).foldl (startAt now dts.length) dts
 
-/-- `Timer::VerifFireDue(now)`: cleanup timers that are due, the start timer if it is due (then re-armed
-    for now + 5), and the cleanup timers that became due through it. -/
-def pumpOp (st : St) (now : Int) : St :=
+/-- `Timer::VerifFireDue(now)`: cleanup timers that are due, the start timer if it is among the due
+    timers (`fire` — when the periodic start timer of downtime.cpp:97-100 is due is not part of the
+    property; the harness reports it as an oracle input), and the cleanup timers that became due
+    through it. -/
+def pumpOp (st : St) (now : Int) (fire : Bool) : St :=
   let dts := st.dts.map (fireCleanup now)
-  if st.startNext ≤ now then
-    { st with dts := (startTimer now dts).map (fireCleanup now), startNext := now + 5 }
+  if fire then
+    { st with dts := (startTimer now dts).map (fireCleanup now) }
   else { st with dts := dts }
 
 /-- `Downtime::RemoveDowntime` (downtime.cpp:362-396), `includeChildren = false`.
@@ -274,7 +275,7 @@ def setPausedOp (st : St) (b : Bool) : St := { st with paused := b, dts := st.dt
 def step (st : St) : Op → St × Nat
   | .add p now => addOp st p now
   | .result s te now => resultOp st s te now
-  | .pump now => (pumpOp st now, 0)
+  | .pump now f => (pumpOp st now f, 0)
   | .remove id u now => removeOp st id u now
   | .setPaused b _ => (setPausedOp st b, 0)
 
